@@ -18,6 +18,8 @@ Crash points (``kill``):
 ``<dir>/ack.log`` gets one JSON line (flushed + fsync'ed) per fact the parent may rely on:
   {"t": "ack", "i": op}     the insert call of op i has returned
   {"t": "rej", "i": op}     the insert call of op i raised sqlite3.IntegrityError (a rejected duplicate)
+  {"t": "ret", "i": op}     the insert call of op i returned inside an open ``with database:`` block (commit deferred;
+                            an "ack" for it follows when the block is left normally)
   {"t": "kill", ...}        written immediately before the SIGKILL (position of the crash point, for the evidence)
   {"t": "done", ...}        clean end, with the number of events seen
 
@@ -143,11 +145,32 @@ def main(argv: list[str]) -> int:
     def unhex(x: str | None) -> bytes | None:
         return None if x is None else bytes.fromhex(x)
 
+    batch: list[int] | None = None      # op indices whose insert call returned inside an open "with database:" block
+
     for i, op in enumerate(wl["ops"]):
         state["op"] = i
         kind = op["op"]
         try:
-            if kind == "token":
+            if kind == "batch_begin":
+                # what ``with database:`` does on entry (the documented way to group commits)
+                identity().__enter__()
+                batch = []
+            elif kind == "batch_end":
+                from ipv8.database import IgnoreCommits
+                db = identity()
+                if op["end"] == "ok":
+                    db.__exit__(None, None, None)
+                    for j in batch or []:
+                        say({"t": "ack", "i": j})          # durable from now on
+                elif op["end"] == "ignore":
+                    exc = IgnoreCommits()
+                    db.__exit__(IgnoreCommits, exc, None)
+                else:
+                    # the body raised an ordinary exception which the application catches around the block
+                    exc2 = TypeError("batch body failed")
+                    db.__exit__(TypeError, exc2, None)
+                batch = None
+            elif kind == "token":
                 if op["content"] is None:
                     token = Token(unhex(op["prev"]), content_hash=unhex(op["chash"]), signature=unhex(op["sig"]))
                 else:
@@ -174,12 +197,19 @@ def main(argv: list[str]) -> int:
         except sqlite3.IntegrityError as e:
             say({"t": "rej", "i": i, "exc": repr(e)})
             continue
+        if batch is not None and kind in ("token", "meta", "att"):
+            batch.append(i)
+            say({"t": "ret", "i": i})       # the call returned, the commit is deferred to the end of the block
+            continue
         say({"t": "ack", "i": i})
 
     state["op"] = len(wl["ops"])
     for db in dbs.values():
         if db is not None:
-            db.close()
+            try:
+                db.close()
+            except Exception as e:  # noqa: BLE001 - noted for the parent; what was durable is judged from the files
+                say({"t": "close_error", "exc": repr(e)[:200]})
     say({"t": "done", "api": state["api"], "sql": state["sql"], "events": names})
     return 0
 
